@@ -33,6 +33,9 @@ type Service struct {
 	Register func(mux *http.ServeMux, h HandlerFunc, hook HookFunc) error
 	// Call invokes the emitted client method; returns response wire bytes or the client's error value.
 	Call map[string]func(ctx context.Context, baseURL string, hc *http.Client, o CallOpts, reqWire []byte) ([]byte, error)
+	// NewClient constructs ONE emitted client (client-level options from o) and returns its methods;
+	// each method takes per-call options only (CallContentType, CallHeaders, HelperCall).
+	NewClient func(baseURL string, hc *http.Client, o CallOpts) map[string]func(ctx context.Context, o CallOpts, reqWire []byte) ([]byte, error)
 	// Mock returns the emitted mock implementation wrapped as a HandlerFunc (nil when no mock was generated).
 	Mock HandlerFunc
 }
